@@ -63,6 +63,15 @@ func c19Jobs(tier string, seed int64) []string {
 		jobs = append(jobs, "float:2:"+strconv.Itoa(slice)+":"+strconv.Itoa(fmod)+":"+strconv.Itoa(3-(b%4)%3))
 	}
 	jobs = append(jobs, "forms:bool", "@solver=cvc5@forms:float")
+	// chains of three operators (left and right leaning, rendered with minimal parentheses): regrouping
+	// of constants across operators of different priority
+	for b := 0; b < 8; b++ {
+		flags := []int{15, 0, 5, 15}[b%4]
+		jobs = append(jobs, "chainb:"+strconv.Itoa(b)+":8:"+strconv.Itoa(flags))
+	}
+	for b := 0; b < 4; b++ {
+		jobs = append(jobs, "chainf:"+strconv.Itoa(b)+":4:"+strconv.Itoa(3-b%3))
+	}
 	return jobs
 }
 
@@ -345,9 +354,64 @@ func c19CheckFloat(src string, want float64, a, b float64, go1, go2 *funcGen.Fun
 	}
 }
 
+// chains returns the left and right leaning trees of three binary operators over the leaves.
+func chains(leaves, ops []string) []*bx {
+	var out []*bx
+	lf := func(s string) *bx { return &bx{leaf: s} }
+	for _, o1 := range ops {
+		for _, o2 := range ops {
+			for _, o3 := range ops {
+				for _, l0 := range leaves {
+					for _, l1 := range leaves {
+						for _, l2 := range leaves {
+							for _, l3 := range leaves {
+								out = append(out,
+									&bx{op: o3, l: &bx{op: o2, l: &bx{op: o1, l: lf(l0), r: lf(l1)}, r: lf(l2)}, r: lf(l3)},
+									&bx{op: o1, l: lf(l0), r: &bx{op: o2, l: lf(l1), r: &bx{op: o3, l: lf(l2), r: lf(l3)}}})
+							}
+						}
+					}
+				}
+			}
+		}
+	}
+	return out
+}
+
 func c19Run(job string) {
 	parts := strings.Split(job, ":")
 	switch parts[0] {
+	case "chainb":
+		batch, _ := strconv.Atoi(parts[1])
+		of, _ := strconv.Atoi(parts[2])
+		flags, _ := strconv.Atoi(parts[3])
+		a, b, c := sym.Bool("a"), sym.Bool("b"), sym.Bool("c")
+		env := map[string]bool{"a": a, "b": b, "c": c}
+		g1, g2 := boolGen(flags, true), boolGen(flags, false)
+		for idx, e := range chains([]string{"a", "true", "false"}, []string{"^", "=", "|", "&"}) {
+			if idx%of != batch {
+				continue
+			}
+			var sb strings.Builder
+			e.flat(&sb, boolPrio, 0, false)
+			c19CheckBool(sb.String(), e.evalBool(env), a, b, c, g1, g2)
+		}
+	case "chainf":
+		batch, _ := strconv.Atoi(parts[1])
+		of, _ := strconv.Atoi(parts[2])
+		flags, _ := strconv.Atoi(parts[3])
+		grid := []float64{-2.5, 0, 0.5, 3}
+		a := grid[sym.Choice("a", len(grid))]
+		env := map[string]float64{"a": a, "b": 0}
+		g1, g2 := floatGen(flags, true), floatGen(flags, false)
+		for idx, e := range chains([]string{"a", "2", "0.5"}, []string{"+", "-", "*"}) {
+			if idx%of != batch {
+				continue
+			}
+			var sb strings.Builder
+			e.flat(&sb, floatPrio, 0, false)
+			c19CheckFloat(sb.String(), e.evalFloat(env), a, 0, g1, g2)
+		}
 	case "bool":
 		n, _ := strconv.Atoi(parts[1])
 		batch, _ := strconv.Atoi(parts[2])
@@ -417,6 +481,9 @@ func c19Run(job string) {
 				{"if a|b then c else !c", ite(sym.Or(a, b), c, sym.Not(c))},
 				{"let t=true; if t then a else b", a},
 				{"if a then (if b then c else !c) else let x=b|c; x", ite(a, ite(b, c, sym.Not(c)), sym.Or(b, c))},
+				{"let x = if a then let y = b; y & a else c; x | c", sym.Or(ite(a, sym.And(b, a), c), c)},
+				{"let x = if a then let y=b; let z=y|c; z else c; x^b", sym.Not(sym.Iff(ite(a, sym.Or(b, c), c), b))},
+				{"let x = if a then b else let y = c; !y; let z = x; z=a", sym.Iff(ite(a, b, sym.Not(c)), a)},
 				{"true=(false=a)", sym.Iff(true, sym.Iff(false, a))},
 				{"false|(false|a)", a},
 				{"(a|false)|false", a},
@@ -445,6 +512,8 @@ func c19Run(job string) {
 				{"if 1 then a else b", a},
 				{"if 0 then a else b", b},
 				{"if a=b then 2 a else 4 b", sym.IteF(a == b, 2*a, 4*b)},
+				{"let x = if a<b then let y=a*2; y+1 else b; x*x", sym.IteF(a < b, a*2+1, b) * sym.IteF(a < b, a*2+1, b)},
+				{"let x = if a then let y=b+1; let z=y*2; z else a; x-b", sym.IteF(a != 0, (b+1)*2, a) - b},
 				{"2*(4*a)", 2 * (4 * a)},
 				{"2*(a*4)", 2 * (a * 4)},
 				{"(2*a)*4", (2 * a) * 4},
